@@ -125,9 +125,9 @@ End TyInd.
 Definition in_range (k : sk) (z : Z) : Prop :=
   match k with
   | KBool => 0 <= z <= 1
-  | KI8 => - 2 ^ 7 <= z < 2 ^ 7 | KI16 => - 2 ^ 15 <= z < 2 ^ 15 | KI32 | KEnum => - 2 ^ 31 <= z < 2 ^ 31
-  | KU8 => 0 <= z < 2 ^ 8 | KU16 => 0 <= z < 2 ^ 16 | KU32 | KF32 => 0 <= z < 2 ^ 32
-  | KI64 => - 2 ^ 63 <= z < 2 ^ 63 | KU64 | KF64 => 0 <= z < 2 ^ 64
+  | KI8 | KE8 => - 2 ^ 7 <= z < 2 ^ 7 | KI16 => - 2 ^ 15 <= z < 2 ^ 15 | KI32 | KEnum => - 2 ^ 31 <= z < 2 ^ 31
+  | KU8 | KEU8 => 0 <= z < 2 ^ 8 | KU16 => 0 <= z < 2 ^ 16 | KU32 | KF32 | KEU32 => 0 <= z < 2 ^ 32
+  | KI64 | KE64 => - 2 ^ 63 <= z < 2 ^ 63 | KU64 | KF64 | KEU64 => 0 <= z < 2 ^ 64
   end.
 
 Definition small (z : Z) : Prop := z < 2 ^ 31.
@@ -188,9 +188,30 @@ Proof. intros. unfold u32. pose proof (Z.mod_pos_bound z (2 ^ 32)). lia. Qed.
 Lemma u64_range : forall z, 0 <= u64 z < 2 ^ 64.
 Proof. intros. unfold u64. pose proof (Z.mod_pos_bound z (2 ^ 64)). lia. Qed.
 
+(* ---------- the scalar traits with the widths they must have (C++ value semantics: intN/uintN/bool through the
+   32 bit varint path, int64/uint64 and every enum through the 64 bit path, float/double as 4/8 bytes); the model
+   uses the widths regenerated from scalar.h, these lemmas fail as soon as one of them is narrowed ---------- *)
+Definition wide (k : sk) : bool :=
+  match k with KI64 | KU64 | KEnum | KE8 | KEU8 | KEU32 | KE64 | KEU64 => true | _ => false end.
+Lemma sk_encode_spec : forall k z, sk_encode k z =
+  match k with KF32 => le_bytes 4 z | KF64 => le_bytes 8 z | _ => if wide k then varint (u64 z) else varint (u32 z) end.
+Proof. destruct k; reflexivity. Qed.
+Lemma sk_size_spec : forall k z, sk_size k z =
+  match k with KF32 => 4 | KF64 => 8 | _ => if wide k then pb_varint_size (u64 z) else pb_varint_size (u32 z) end.
+Proof. destruct k; reflexivity. Qed.
+Lemma dec_scalar_spec : forall k s cur, dec_scalar k s cur =
+  match k with
+  | KF32 => match read_fixed 4 s with Some (v, s') => Ok (VInt (sk_cast k v)) s' | None => Fail end
+  | KF64 => match read_fixed 8 s with Some (v, s') => Ok (VInt (sk_cast k v)) s' | None => Fail end
+  | _ => match read_varint s with
+         | VOk v s' => Ok (VInt (sk_cast k (if wide k then u64 v else u32 v))) s'
+         | _ => Fail end
+  end.
+Proof. destruct k; reflexivity. Qed.
+
 Lemma sk_size_exact : forall k z, sk_size k z = Z.of_nat (length (sk_encode k z)).
 Proof.
-  intros. destruct k; cbn [sk_size sk_encode];
+  intros. rewrite sk_size_spec, sk_encode_spec. destruct k; cbn [wide];
     try (rewrite varint_length_pb; [reflexivity|apply u32_range]);
     try (rewrite varint_length_pb; [reflexivity|apply u64_range]);
     rewrite le_bytes_length; reflexivity.
@@ -379,9 +400,9 @@ Proof.
 Qed.
 
 Lemma sk_cast_rt32 : forall k z, in_range k z ->
-  match k with KI64 | KU64 | KEnum | KF32 | KF64 => True | _ => sk_cast k (u32 (u32 z)) = z end.
+  if wide k then True else match k with KF32 | KF64 => True | _ => sk_cast k (u32 (u32 z)) = z end.
 Proof.
-  intros k z H. unfold u32. destruct k; cbn [in_range sk_cast] in *; auto; rewrite ?Z.mod_mod by lia.
+  intros k z H. unfold u32. destruct k; cbn [wide in_range sk_cast] in *; auto; rewrite ?Z.mod_mod by lia.
   - assert (z = 0 \/ z = 1) as [->| ->] by lia; reflexivity.
   - apply (swrap_mod_le 8 32); lia.
   - apply (swrap_mod_le 16 32); lia.
@@ -392,12 +413,17 @@ Proof.
 Qed.
 
 Lemma sk_cast_rt64 : forall k z, in_range k z ->
-  match k with KI64 | KU64 | KEnum => sk_cast k (u64 (u64 z)) = z | _ => True end.
+  if wide k then sk_cast k (u64 (u64 z)) = z else True.
 Proof.
-  intros k z H. unfold u64. destruct k; cbn [in_range sk_cast] in *; auto; rewrite ?Z.mod_mod by lia.
+  intros k z H. unfold u64. destruct k; cbn [wide in_range sk_cast] in *; auto; rewrite ?Z.mod_mod by lia.
   - apply (swrap_mod_le 64 64); lia.
   - apply Z.mod_small. lia.
   - apply (swrap_mod_le 32 64); lia.
+  - apply (swrap_mod_le 8 64); lia.
+  - rewrite (mod_mod_le z 8 64) by lia. apply Z.mod_small. lia.
+  - rewrite (mod_mod_le z 32 64) by lia. apply Z.mod_small. lia.
+  - apply (swrap_mod_le 64 64); lia.
+  - apply Z.mod_small. lia.
 Qed.
 
 Lemma dec_scalar_rt : forall k z post ext cur, in_range k z ->
@@ -405,7 +431,8 @@ Lemma dec_scalar_rt : forall k z post ext cur, in_range k z ->
 Proof.
   intros k z post ext cur H.
   pose proof (sk_cast_rt32 k z H) as C32. pose proof (sk_cast_rt64 k z H) as C64.
-  destruct k; cbn [dec_scalar sk_encode] in *;
+  rewrite dec_scalar_spec, sk_encode_spec.
+  destruct k; cbn [wide] in *;
     try (rewrite read_varint_ok by apply u32_range; rewrite C32; reflexivity);
     try (rewrite read_varint_ok by apply u64_range; rewrite C64; reflexivity).
   - cbn [in_range] in H. rewrite read_fixed_ok by (change (256 ^ Z.of_nat 4) with (2 ^ 32); lia).
@@ -415,7 +442,7 @@ Proof.
 Qed.
 
 Lemma sk_encode_nonempty : forall k z, sk_encode k z <> [].
-Proof. intros. destruct k; cbn; try apply varint_nonempty; discriminate. Qed.
+Proof. intros. rewrite sk_encode_spec. destruct k; cbn [wide]; try apply varint_nonempty; discriminate. Qed.
 
 (* ---------- limits ---------- *)
 Lemma with_limit_exact : forall body post d cur v,
